@@ -107,7 +107,7 @@ def as_data(net, bounds, nm=3):
     return used, rxns
 
 
-def build_model(mets, rxns, interface="glpk", compartments=None, flip=(), rules=None):
+def build_model(mets, rxns, interface="glpk", compartments=None, flip=(), rules=None, user_first=False):
     """Real cobra model from plain data. flip: reaction ids written in the opposite direction
     (`--> A` instead of `A -->`) with bounds mirrored, so that the net problem is the same."""
     from cobra import Metabolite, Model, Reaction
@@ -115,6 +115,12 @@ def build_model(mets, rxns, interface="glpk", compartments=None, flip=(), rules=
     m = Model("fam")
     if interface != "glpk":
         m.solver = interface
+    if user_first:
+        # a user-level variable and constraint that precede every steady-state row and flux column (they do not
+        # restrict the fluxes)
+        uv = m.problem.Variable("user_var", lb=0, ub=1)
+        m.add_cons_vars([uv, m.problem.Constraint(uv, lb=0, ub=1, name="user_con")])
+        m.solver.update()
     compartments = compartments or {}
     mo = {x: Metabolite(x, compartment=compartments.get(x, "c")) for x in mets}
     rs = []
